@@ -542,6 +542,11 @@ func (s *SimP4) submitWrite(reqBytes []byte, inc int) *rpcCall {
 	}
 	failThis := (f.FailNth != 0 && s.Writes == f.FailNth) || (f.FailDen > 0 && sim.Ch.Bool(1, f.FailDen, "p4-fail"))
 	d1 := f.lat(sim)
+	if f.SlowDen > 0 && sim.Ch.Bool(1, f.SlowDen, "p4-slow") {
+		// one slow round trip: later writes of other handlers overtake this one
+		d1 += f.SlowBy
+		s.Fired["p4-write-slow"]++
+	}
 	if failThis && s.FailKind == "transport" {
 		s.Fired["p4-write-fail-transport"]++
 		n := s.Writes
